@@ -10,6 +10,7 @@ import (
 	"fmt"
 	"sort"
 	"testing"
+	"time"
 
 	"verifharness/ckit"
 	"verifharness/hx"
@@ -42,7 +43,16 @@ func runCluster32(t *testing.T, r *hx.Rng, out *hx.Out, nextID func() string, ns
 			spec.NUMACPU = []string{"0,1", "2,3"}
 			spec.NUMAMemory = []string{"4294967296", "4294967296"}
 		}
-		cl.AddNode(spec)
+		slow := seq%3 == 2 // scripted engine updates (delay, ctx-honouring, one failing at once)
+		if slow {
+			opts := cl.AddNodeOptions(spec)
+			opts.Endpoint = cl.Hub.SlowEndpoint(node)
+			if _, err := cl.C.AddNode(cl.Ctx(), opts); err != nil {
+				t.Fatalf("AddNode %s: %v", node, err)
+			}
+		} else {
+			cl.AddNode(spec)
+		}
 		live := func() []*coretypes.Workload {
 			ws, err := cl.Store.Store.ListNodeWorkloads(cl.Ctx(), node, nil)
 			if err != nil {
@@ -78,7 +88,7 @@ func runCluster32(t *testing.T, r *hx.Rng, out *hx.Out, nextID func() string, ns
 					}
 				}
 				ct, ok := cl.Hub.Get(w.ID)
-				if !ok {
+				if !ok || gone[w.ID] {
 					continue
 				}
 				e := engOf(ct.EngineParams["cpumem"])
@@ -90,7 +100,7 @@ func runCluster32(t *testing.T, r *hx.Rng, out *hx.Out, nextID func() string, ns
 			}
 			out.Emit(c)
 		}
-		if seq%2 == 1 { // engine error during remap: one unbound workload's container vanished
+		if seq%3 != 0 { // engine error during remap: one unbound workload's container vanished / its update fails at once
 			mk := func(count int, req resourcetypes.RawParams) {
 				ch, err := cl.C.CreateWorkload(cl.Ctx(), &coretypes.DeployOptions{
 					Name: "app", Entrypoint: &coretypes.Entrypoint{Name: "web"}, Podname: "p32", Image: "img", Count: count,
@@ -107,7 +117,14 @@ func runCluster32(t *testing.T, r *hx.Rng, out *hx.Out, nextID func() string, ns
 			if len(ws) >= 3 {
 				victim := ws[r.Intn(len(ws))].ID
 				cl.Quiesce()
-				cl.Hub.Delete(victim)
+				if slow {
+					// every engine update now takes a while and watches its context; the victim's fails at once:
+					// the others are still pending when the error is seen
+					cl.Hub.UpdateControl().Set(60*time.Millisecond, victim)
+					defer cl.Hub.UpdateControl().Set(0)
+				} else {
+					cl.Hub.Delete(victim)
+				}
 				gone[victim] = true
 				cl.ResetTrace()
 				// a binding change: the free shared cores shrink, every other unbound workload must be re-pinned
@@ -117,6 +134,7 @@ func runCluster32(t *testing.T, r *hx.Rng, out *hx.Out, nextID func() string, ns
 				mk(1, resourcetypes.RawParams{"memory-request": int64(1 << 26), "cpu-request": 1.0, "cpu-bind": true})
 				emit("engine-error")
 			}
+			cl.Hub.UpdateControl().Set(0)
 			continue
 		}
 		nops := r.Range(3, 7)
